@@ -204,7 +204,7 @@ class Run10:
 
         def kd(a):
             if isinstance(a, MultiVector):
-                return tuple(a.keys())
+                return tuple(int(k) for k in a.keys())
             if isinstance(a, (list, tuple)):
                 return ('seq',) + tuple(kd(x) for x in a)
             if callable(a):
@@ -231,6 +231,8 @@ class Run10:
                type(a).__name__ not in ('Fraction', 'float64', 'int64') for a in args):
             if not all(isinstance(a, MultiVector) or hasattr(a, '__float__') or hasattr(a, 'free_symbols') for a in args):
                 return None
+        if any(isinstance(a, MultiVector) and not isinstance(a.keys(), tuple) for a in args):
+            return None          # keys that are not a tuple cannot be looked up through the Mapping API
         keys = [tuple(a.keys()) if isinstance(a, MultiVector) else (0,) for a in args]
         if op['kind'] == 'bin':
             return getattr(alg, op['op']), (keys[0], keys[1])
